@@ -76,6 +76,121 @@ func (cx *Ctx) checkFieldSinks(r *Report, rule, prefix string, vf *VFlow, sinks 
 	}
 }
 
+// checkStoresUnconditional (R-MUST): provenance says where a field's value can come from, not that the field is filled.
+// For every sink with required sources, each store site that carries such a source must execute whenever its
+// function runs to a return - its block lies on every path from the entry to a return - or be skipped only when the
+// value itself is empty / nil (`if url != "" { x.Recipient = url }` leaves the zero value an unconditional store of ""
+// would also leave). A store under any other condition fills the field for some requests only.
+func (cx *Ctx) checkStoresUnconditional(r *Report, rule, prefix string, vf *VFlow, sinks []fieldSink) {
+	w, fx := cx.W, cx.Fx
+	for _, s := range sinks {
+		if len(s.req) == 0 {
+			continue
+		}
+		// message constructors only: the functions that build the wire structs and have no failing exit. (The
+		// per-attribute stores of GetSAML have a rule of their own; handlers fill their reply objects between error exits.)
+		if !(strings.HasPrefix(s.owner, "samlp.") || strings.HasPrefix(s.owner, "saml.")) || s.owner == "saml.AttributeType" {
+			continue
+		}
+		_, sites := vf.FieldStoreSources(s.owner, s.field)
+		for _, st := range sites {
+			if res := st.Parent().Signature.Results(); res.Len() == 0 || isErrorType(res.At(res.Len()-1).Type()) {
+				continue
+			}
+			ls := vf.Deep(vf.Labels(st.Val))
+			carries := false
+			for _, l := range ls.leaves() {
+				if matchAny(s.req, l) {
+					carries = true
+				}
+			}
+			if !carries {
+				continue
+			}
+			key := prefix + ":" + s.owner + "." + s.field + "@" + w.FuncKey(st.Parent())
+			ok, why := cx.blockUnconditional(st.Block(), st.Val, 0)
+			r.Check(ok, rule, key, w.InstrPos(st), "filled on every path of its function (or skipped only for an empty value)", s.owner+"."+s.field+" is filled only on some paths of "+w.FuncKey(st.Parent())+" ("+why+"): for the other requests the message goes out without it")
+			_ = fx
+		}
+	}
+}
+
+// blockUnconditional: every path from the entry of b's function to a return passes b, or b is skipped only under
+// emptiness / nil-ness of val, by a branch that is itself unconditional.
+func (cx *Ctx) blockUnconditional(b *ssa.BasicBlock, val ssa.Value, depth int) (bool, string) {
+	fn := b.Parent()
+	fx := cx.Fx
+	if depth > 4 {
+		return false, "nested conditions"
+	}
+	avoidable := false
+	for _, ret := range returnsOf(fn) {
+		if ret.Block() == b {
+			continue
+		}
+		if reachAvoidingBlock(fn.Blocks[0], ret.Block(), b) {
+			avoidable = true
+		}
+	}
+	if !avoidable || b == fn.Blocks[0] {
+		return true, ""
+	}
+	// conditional: the deciding branch (edges a constant condition rules out do not count)
+	var live []*ssa.BasicBlock
+	for _, pr := range b.Preds {
+		for k, sc := range pr.Succs {
+			if sc == b && !deadEdge(pr, k) {
+				live = append(live, pr)
+				break
+			}
+		}
+	}
+	if len(live) != 1 {
+		return false, "reached by several conditional paths"
+	}
+	p := live[0]
+	ifi, ok := p.Instrs[len(p.Instrs)-1].(*ssa.If)
+	if !ok {
+		return cx.blockUnconditional(p, val, depth+1)
+	}
+	pol := p.Succs[0] == b
+	a := fx.atomOf(ifi.Cond, pol)
+	okCond := false
+	if (a.Op == "EMPTY" || a.Op == "NIL") && a.Neg {
+		// the tested value is the stored one (or what it was computed from)
+		var subj ssa.Value
+		if a.Op == "EMPTY" {
+			subj = emptySubject(a)
+		} else {
+			subj, _, _ = nilTest(ifi.Cond)
+		}
+		if subj != nil {
+			sp := fx.path(subj)
+			if sp == fx.path(val) {
+				okCond = true
+			}
+			for _, al := range fx.aliasesOf(subj) {
+				if al == val {
+					okCond = true
+				}
+			}
+			// the stored value is built from the tested one (a struct around it, a formatted form)
+			var ops [16]*ssa.Value
+			if in, isIn := val.(ssa.Instruction); isIn {
+				for _, op := range in.Operands(ops[:0]) {
+					if op != nil && *op != nil && (fx.path(*op) == sp) {
+						okCond = true
+					}
+				}
+			}
+		}
+	}
+	if !okCond {
+		return false, "under " + a.String()
+	}
+	return cx.blockUnconditional(p, val, depth+1)
+}
+
 func checkC02(cx *Ctx, r *Report) {
 	w, fx := cx.W, cx.Fx
 	r.Clauses = []string{
